@@ -1,6 +1,6 @@
 import Secp.Gen.ScalarCodec
 import Secp.Proofs.BytesTiesN
-import Secp.Proofs.ScalarApiTiesSelect
+import Secp.Proofs.ScalarErr
 /-!
 # The regenerated `Encode`, `Decode`, `Hex`, `DecodeHex`, `MarshalBinary`, `UnmarshalBinary` of `scalar.go` equal the model
 -/
